@@ -206,6 +206,11 @@ def tryshape_programs(two_deep):
         src = ("function fn() { for (var q = 0; q < 2; q++) { " + body + " } return 6 } var I = 0; while (I < NN) { I++; "
                "try { [1].forEach(function () { __out([0, fn()]) }) } catch (ez) { __out(ez) } __mark(); } I")
         yield "tryshape-native|" + name, src
+        # the loop that repeats the shape lives inside ONE activation (a return in the shape ends the activation and the
+        # driver starts another one): what a finally that overrides a return leaves behind accumulates here only
+        src = ("var I = 0; function fn() { for (var q = 0; I < NN; q++) { I++; __mark(); " + body + " } return 6 } "
+               "var guard = 0; while (I < NN && guard < 4 * NN + 8) { guard++; try { fn() } catch (ez) { __out(ez) } } I")
+        yield "tryshape-funcloop|" + name, src
 
 
 # statements whose body does not run (or runs zero times): the paths "around" a construct, each with its own clean-up code
